@@ -25,7 +25,9 @@ int g_01_calls, g_01_ch; float **g_01_in; void *g_01_vb, *g_01_vl; void *g_01_fn
 /* ---- body-ful stubs for the callees of _01inverse / res2_inverse: they CHECK
    what the partition decoder hands them (their own contracts: units cb_decodev_add,
    cb_decodev_set, blk_alloc) ------------------------------------------------- */
+#ifndef VERIF_CORE_MAXCH
 #define VERIF_CORE_MAXCH 2
+#endif
 codebook *g_phrasebook, *g_stagebook;       /* the classification book / the (one) stage book object */
 float *g_rows[VERIF_CORE_MAXCH]; long g_rowlen;   /* residue vectors and their length (half a block) */
 int g_grouping, g_chs; float **g_in; int g_part_calls, g_class_calls;
